@@ -322,8 +322,8 @@ def _arm(seconds):
     """wall-clock guard around one history (a broken loop check makes `ancestors` run away)"""
     import signal
     try:
-        prev = signal.signal(signal.SIGALRM, _on_alarm)
-        signal.setitimer(signal.ITIMER_REAL, seconds)
+        prev = signal.signal(signal.SIGPROF, _on_alarm)
+        signal.setitimer(signal.ITIMER_PROF, seconds)
         return prev
     except ValueError:      # not in the main thread: no guard
         return None
@@ -332,8 +332,8 @@ def _arm(seconds):
 def _disarm(prev):
     import signal
     if prev is not None:
-        signal.setitimer(signal.ITIMER_REAL, 0)
-        signal.signal(signal.SIGALRM, prev)
+        signal.setitimer(signal.ITIMER_PROF, 0)
+        signal.signal(signal.SIGPROF, prev)
 
 
 _MEMO: dict = {}
@@ -1307,3 +1307,4 @@ LEVEL_NOTE = ("Proved (no sorry, standard axioms only): DWF (p in parents c <-> 
 TECHNIQUE = "machine-checked proof (Lean 4) on a hand-written executable model + correspondence check against the real code"
 NOT_READY = False
 RULE = RULE + " Fourth session: a third of the distinct-name checks-on histories without constructor calls end with copy=<v>: one node.copy() per weakly connected component of the final state, compared cell by cell with DagStore.deepCopy of the model's final store (tie of C07Dag.*); failing library calls (cyclic relation lists, ...) as no-op events between the operations of a fifth of the random histories."
+RULE = RULE + ' Fifth session: one-shot iterators as children arguments (argument kind G; the setter reads its argument once, D13); every DAG mixes two user classes; theorem children_arg_kind_irrelevant.'
